@@ -100,3 +100,40 @@ def run(chk):
                           "step keep VirtReg::_work_reg pointing into the reset arena" % (sorted(iterated) or "(no member container)", sorted(link_members)),
                    key="unlink|" + fn.name.replace("asmjit::", ""))
     chk.floor(R + ":cleanups", n, 1)
+
+
+def run_pass_data(chk):
+    R = "R-PASS-DATA-CLEARED"
+    chk.rule(R, "register allocator: nodes are given pointers into the pass arena with set_pass_data(); BaseRAPass::run_on_function() - whose "
+                "clean-up runs whatever the outcome - unconditionally calls a function that walks the nodes and calls reset_pass_data() "
+                "unconditionally for each: no node keeps a pointer into the arena that is reset when the pass returns")
+    f = chk.facts(UNIT, funcs=r"asmjit::[A-Za-z_0-9:]+$")
+    fns = [cfg.Fn(fo) for fo in f["functions"]]
+    links = sum(1 for g in fns for i, x in g.calls(lambda x: x.get("cn") == "set_pass_data"))
+    chk.need(links >= 2, "no set_pass_data() sites found in the register allocator")
+    roots = [g for g in fns if g.name.endswith("BaseRAPass::run_on_function")]
+    chk.need(len(roots) == 1, "BaseRAPass::run_on_function not found")
+    root = roots[0]
+
+    def unconditional(g, eid):
+        par = g.parent_map()
+        j = eid
+        while j in par:
+            j = par[j]
+            k = (g.e(j) or {}).get("k", "")
+            if k in ("s:IfStmt", "s:SwitchStmt", "cond"):
+                return False
+        return True
+    ok = False
+    where = "%s:%d" % (UNIT, root.line)
+    for i, x in root.calls():
+        for g in fns:
+            if g.name == x.get("callee") and g is not root and g.file.endswith("rapass.cpp"):
+                resets = [j for j, y in g.calls(lambda y: y.get("cn") == "reset_pass_data")]
+                loops = [y for y in g.ex.values() if y["k"] in ("s:ForStmt", "s:WhileStmt", "s:DoStmt", "s:CXXForRangeStmt")]
+                if resets and loops and all(unconditional(g, j) for j in resets) and unconditional(root, i):
+                    ok = True
+                    where = root.loc(i)
+    chk.ob(R, "BaseRAPass::run_on_function|reset_pass_data", ok, loc=where,
+           detail="run_on_function() has no unconditional clean-up that resets the pass data of every node of the function (%d set_pass_data() sites "
+                  "store pointers into the pass arena)" % links, key="passdata|run_on_function")
